@@ -159,14 +159,25 @@ type Revision struct {
 	W         [3]int // field widths of the xref stream
 	Split     bool   // /Index with one subsection per contiguous run (else one covering range when possible)
 	FlateXRef bool
+	XRefPredictor bool // with FlateXRef: rows are PNG-Up predicted (/DecodeParms << /Columns w0+w1+w2 /Predictor 12 >>)
 	Root      Ref
 	Info      *Ref
 }
+
+// PayloadFault, when set, is handed the not yet encoded payload of every object-stream header
+// (kind "objstm": the "num offset num offset ..." text) and of every cross-reference stream
+// (kind "xref": the binary rows, widths w) and returns what is written instead. It exists for
+// fault injection into numeric fields that sit inside encoded streams; the rest of the file
+// (lengths, /First, offsets) stays consistent with the returned payload. The self-audit is
+// skipped for a file whose payload was changed.
+var PayloadFault func(kind string, num int, payload []byte, w [3]int) []byte
 
 type File struct {
 	EOL     string // "lf", "crlf", "cr"
 	Version string // e.g. "1.7"
 	Revs    []Revision
+	// PrevFormat, when set, is the fmt verb /Prev offsets are written with, in every section.
+	PrevFormat string
 }
 
 // Layout records where things landed (for the self-audit and for tests).
@@ -207,6 +218,7 @@ func (f *File) Bytes() ([]byte, *Layout, error) {
 	}
 	out.WriteString("%PDF-" + ver + nl + "%\xe2\xe3\xcf\xd3" + nl)
 	lay := &Layout{}
+	faulted := false
 	// state across revisions
 	type ent struct {
 		typ  int // 0 free, 1 offset, 2 compressed
@@ -271,8 +283,16 @@ func (f *File) Bytes() ([]byte, *Layout, error) {
 						maxNum = m.Num
 					}
 				}
-				first := head.Len()
-				data := append(head.Bytes(), body.Bytes()...)
+				hb := head.Bytes()
+				if PayloadFault != nil {
+					nb := PayloadFault("objstm", it.Num, append([]byte{}, hb...), [3]int{})
+					if !bytes.Equal(nb, hb) {
+						faulted = true
+					}
+					hb = nb
+				}
+				first := len(hb)
+				data := append(append([]byte{}, hb...), body.Bytes()...)
 				d := Dict{{"Type", Name("ObjStm")}, {"N", Int(len(it.Members))}, {"First", Int(first)}}
 				if it.FlateStm {
 					data = deflate(data)
@@ -326,7 +346,15 @@ func (f *File) Bytes() ([]byte, *Layout, error) {
 		if rev.Info != nil {
 			trailer = append(trailer, KV{"Info", *rev.Info})
 		}
-		if prevXRef >= 0 {
+		if f.PrevFormat != "" {
+			// fixed-width spelling of /Prev in every section (also the first, where it is a placeholder the
+			// caller rewrites or blanks): lets a caller retarget the entries without moving any offset
+			v := prevXRef
+			if v < 0 {
+				v = 0
+			}
+			trailer = append(trailer, KV{"Prev", Raw(fmt.Sprintf(f.PrevFormat, v))})
+		} else if prevXRef >= 0 {
 			trailer = append(trailer, KV{"Prev", Int(prevXRef)})
 		}
 		if rev.XRef == "table" {
@@ -404,7 +432,29 @@ func (f *File) Bytes() ([]byte, *Layout, error) {
 				d = append(d, KV{"Index", index})
 			}
 			body := data.Bytes()
+			if PayloadFault != nil {
+				nb := PayloadFault("xref", rev.XRefNum, append([]byte{}, body...), w)
+				if !bytes.Equal(nb, body) {
+					faulted = true
+				}
+				body = nb
+			}
 			if rev.FlateXRef {
+				if rev.XRefPredictor {
+					// PNG "Up" rows, the usual encoding of cross-reference streams
+					cols := w[0] + w[1] + w[2]
+					var pb bytes.Buffer
+					prev := make([]byte, cols)
+					for i := 0; i+cols <= len(body); i += cols {
+						pb.WriteByte(2)
+						for j := 0; j < cols; j++ {
+							pb.WriteByte(body[i+j] - prev[j])
+						}
+						copy(prev, body[i:i+cols])
+					}
+					body = pb.Bytes()
+					d = append(d, KV{"DecodeParms", Dict{{"Columns", Int(cols)}, {"Predictor", Int(12)}}})
+				}
 				body = deflate(body)
 				d = append(d, KV{"Filter", Name("FlateDecode")})
 			}
@@ -427,6 +477,9 @@ func (f *File) Bytes() ([]byte, *Layout, error) {
 		lay.Compressed = append(lay.Compressed, comp)
 	}
 	b := out.Bytes()
+	if faulted {
+		return b, lay, nil
+	}
 	if err := audit(b, f, lay); err != nil {
 		return nil, nil, fmt.Errorf("pdfw self-audit: %w", err)
 	}
